@@ -37,6 +37,10 @@ pub enum Op {
     Subst(usize, Vec<(u32, usize)>),
     Cof(usize, bool),
     PickCubeDd(usize, u32),
+    /// DDDMP (ascii / binary) or DOT export of up to three handles into memory
+    Export(usize, usize, u32),
+    /// ZBDD only: kind 0 subset0, 1 subset1, 2 change, 3 union, 4 intsec, 5 diff
+    ZSet(u32, usize, usize, u32),
     Clone(usize),
     Drop(usize),
     DropOnThread(usize),
@@ -71,6 +75,13 @@ impl Op {
             Op::Cof(_, true) => "cofactor_true",
             Op::Cof(_, false) => "cofactor_false",
             Op::PickCubeDd(..) => "pick_cube_dd",
+            Op::Export(..) => "export",
+            Op::ZSet(0, ..) => "subset0",
+            Op::ZSet(1, ..) => "subset1",
+            Op::ZSet(2, ..) => "change",
+            Op::ZSet(3, ..) => "union",
+            Op::ZSet(4, ..) => "intsec",
+            Op::ZSet(..) => "diff",
             Op::Clone(_) => "clone",
             Op::Drop(_) => "drop",
             Op::DropOnThread(_) => "drop_on_thread",
@@ -95,6 +106,9 @@ pub struct Profile {
     pub thread_drop: bool,
     pub pick_cube: bool,
     pub from_table: bool,
+    pub export: bool,
+    /// generate ZBDD set operations (only meaningful for the ZBDD kind; ignored otherwise)
+    pub zset: bool,
 }
 
 impl Default for Profile {
@@ -109,6 +123,8 @@ impl Default for Profile {
             thread_drop: true,
             pick_cube: false,
             from_table: true,
+            export: true,
+            zset: true,
         }
     }
 }
@@ -148,7 +164,9 @@ pub fn gen_op(rng: &mut Rng, n: u32, live: usize, has_quant: bool, p: &Profile) 
                 Op::Subst(h(rng), vars.into_iter().map(|v| (v, h(rng))).collect())
             }
             81..=84 => Op::Cof(h(rng), rng.bool()),
-            85..=87 if p.pick_cube => Op::PickCubeDd(h(rng), rng.next() as u32),
+            85 if p.export => Op::Export(h(rng), h(rng), rng.next() as u32),
+            86..=87 if p.pick_cube => Op::PickCubeDd(h(rng), rng.next() as u32),
+            86..=87 if p.zset && !has_quant => Op::ZSet(rng.below(6) as u32, h(rng), h(rng), rng.below(n as u64) as u32),
             88..=92 => Op::Clone(h(rng)),
             93..=94 if p.add_vars && n < p.max_vars => {
                 if rng.bool() { Op::AddVars(rng.range(1, 2) as u32) } else { Op::AddNamedVars(rng.range(1, 2) as u32) }
@@ -445,6 +463,31 @@ where
                         self.ooms += 1;
                     }
                 }
+            }
+            Op::Export(i, j, how) => {
+                let (a, b) = (&self.hs[self.idx(*i)], &self.hs[self.idx(*j)]);
+                ctx.eval();
+                if K::export(&self.mref, &[&a.f, &b.f, &a.f], *how).is_none() {
+                    let w = self.witness("export reported an error");
+                    ctx.violation(&self.sig("export:error"), w);
+                }
+            }
+            Op::ZSet(kind, i, j, var) => {
+                if K::SEM != Sem::ZeroSup {
+                    return;
+                }
+                let (a, b) = (&self.hs[self.idx(*i)], &self.hs[self.idx(*j)]);
+                let v = var % n;
+                let bit = 1usize << v;
+                let model = match kind {
+                    0 => Tt::from_fn(n, |x| x & bit == 0 && a.t.get(x)),
+                    1 => Tt::from_fn(n, |x| x & bit == 0 && a.t.get(x | bit)),
+                    2 => Tt::from_fn(n, |x| a.t.get(x ^ bit)),
+                    3 => a.t.or(&b.t),
+                    4 => a.t.and(&b.t),
+                    _ => a.t.diff(&b.t),
+                };
+                produced = Some((K::zset(*kind, &a.f, &b.f, v), model));
             }
             Op::Clone(i) => {
                 let a = &self.hs[self.idx(*i)];
